@@ -1,5 +1,13 @@
 """C01 bounded run-time tier: the C01 contract clauses evaluated on the real code with doubles.
-Bounded: seeded regions at scales 1e-12..1e6, meshes <= 12 cells/axis (quick) / 24 (thorough)."""
+Bounded: seeded regions at scales 1e-12..1e6, meshes <= 12 cells/axis (quick) / 24 (thorough).
+
+Every lattice / probe clause is stated on a mesh obtained through a *route* (how it was requested and
+what happened to it since): by n or by cell size (exact quotient, a cell inside the constructor's
+acceptance band, a cell rounded to a few significant digits), float / decimal / integer corners,
+tuple / list / ndarray / scalar arguments, p1,p2 or region= (custom dimension names), then a history of
+in-place or copying translate / scale / rotate90 calls.  The oracle lattice is always
+pmin + (i+1/2)*(pmax-pmin)/n computed here from the region corners and the expected n; nothing a mesh
+may remember about its construction is allowed to show in any observer."""
 import itertools
 import numpy as np
 import discretisedfield as df
@@ -16,12 +24,147 @@ CLAUSES = {
     "C01.containing_cell": "a point of the region maps to an in-range index whose (closed) cell contains it up to the tolerance",
     "C01.face_lower_inclusive": "a point exactly on an interior face belongs to the upper cell (lower face inclusive) up to 1 ulp of rounding; pmax belongs to the last cell",
     "C01.reject_outside": "points / indices outside the region are rejected (ValueError / IndexError)",
-    "C01.cell_request": "a mesh requested by cell size exists when edges are a whole number of cells (n = edges/cell) and is rejected when the remainder is clearly inside (5%..95% of a cell)",
+    "C01.cell_request": "a mesh requested by cell size exists when edges are a whole number of cells (n = edges/cell; also for a cell inside the 0.1%-of-the-smallest-cell acceptance band) and is rejected when the remainder is clearly inside (0.3% of the smallest cell .. 95% of a cell)",
+    "C01.tiling": "the mesh's own observers tile the region exactly once: n*cell == edges, first lower face == pmin, last upper face == pmax, neighbouring centres are one cell apart, vertices run from pmin to pmax in steps of cell and their midpoints are the centres (to rounding, 8 ulp of the coordinate scale)",
+    "C01.history": "after in-place or copying translate / scale / rotate90 (of the mesh, or in place of its region) n and the region are the transformed ones (corners to 64 ulp of the coordinate scale) and every other clause holds on the result; arrays passed to the constructor are not aliased",
 }
 RULE = ("seeded random regions (scale 10^U(-12,6), non-representable offsets, either corner order) x cell counts; "
-        "every index of every mesh; probe points at centres, on all faces, +-1ulp around faces, outside by > tolerance; "
-        "non-trivial = more than one cell in total; distinct by (kind, params)")
-ASSUMPTIONS = ["bounded: meshes of at most 24 cells per axis, 4 dimensions, seeded sample of geometry"]
+        "every index of every mesh; probe points at centres, on all faces, +-1ulp and +-(1e-9,1e-6,1e-3) cell around faces, at both "
+        "corners, outside by > tolerance; the same on meshes reached through construction routes (by n / by exact, in-band or "
+        "digit-rounded cell size; float, decimal, integer corners; tuple/list/ndarray/scalar/region= arguments; custom dims; bc) "
+        "followed by 0-2 in-place or copying translate / scale / rotate90 calls (default or arbitrary reference point; on the mesh or in place on its region); non-trivial = more than one cell in total; distinct by (kind, params)")
+ASSUMPTIONS = ["bounded: meshes of at most 24 cells per axis, 4 dimensions, seeded sample of geometry",
+               "acceptance band of a requested cell size taken from the anchor: |n*cell - edge| <= 1e-3*min(cell) (cases use <= 0.8 of it); "
+               "requests within (1, 3) times the band are not exercised",
+               "transformed meshes: the lattice oracle is anchored at the region corners the mesh reports (checked against the "
+               "independently transformed corners to 64 ulp), n from the independent oracle"]
+
+FAMILIES = ("cell_exact", "cell_band", "cell_digits", "int_n", "int_cell", "int_band", "region_n", "region_band", "dec_n")
+
+
+# ------------------------------------------------------------------------------------------ generators
+def _round_sig(x, k):
+    return float("%.*e" % (k - 1, x))
+
+
+def _dec_region(rng, ndim):
+    """corners that are short decimals (k * 10^e), often with a corner at 0; either corner order"""
+    unit = 10.0 ** int(rng.integers(-9, 4))
+    a = rng.integers(-200, 200, size=ndim)
+    a = np.where(rng.uniform(size=ndim) < 0.4, 0, a)
+    m = rng.integers(10, 400, size=ndim)
+    p1, p2 = (a * unit), ((a + m) * unit)
+    flip = rng.integers(0, 2, size=ndim).astype(bool)
+    return np.where(flip, p2, p1).tolist(), np.where(flip, p1, p2).tolist()
+
+
+def _int_region(rng, ndim, n):
+    """integer corners; edges are multiples of n half the time (integer-valued cell)"""
+    a = rng.integers(-30, 31, size=ndim)
+    m = rng.integers(1, 40, size=ndim)
+    m = np.where(rng.uniform(size=ndim) < 0.5, m * np.array(n), m + np.array(n))
+    flip = rng.integers(0, 2, size=ndim).astype(bool)
+    p1, p2 = a, a + m
+    return [int(v) for v in np.where(flip, p2, p1)], [int(v) for v in np.where(flip, p1, p2)]
+
+
+def _in_band(e, n, c, share=0.8):
+    c = np.asarray(c, float)
+    return bool(np.all(np.abs(np.asarray(n) * c - e) <= share * 1e-3 * np.min(c)) and np.all(c <= e * (1 + 1e-13)))
+
+
+def _band_cell(rng, e, n):
+    """cell sizes whose multiples miss the edges by up to 0.8 of the acceptance band; at least one axis by >= 0.3"""
+    n = np.asarray(n)
+    c0 = e / n
+    u = rng.uniform(-0.8, 0.8, size=len(n))
+    k = int(rng.integers(len(n)))
+    u[k] = np.sign(u[k] or 1.0) * rng.uniform(0.3, 0.8)
+    u = np.where(n == 1, -np.abs(u), u)          # a single cell must not exceed the region
+    c = (e + u * 0.97e-3 * np.min(c0)) / n
+    return c.tolist() if _in_band(e, n, c) else None
+
+
+def _digits_cell(e, n, k0):
+    """cell sizes rounded to k significant digits, smallest k >= k0 that stays inside the band"""
+    n = np.asarray(n)
+    for k in range(k0, 12):
+        c = np.array([_round_sig(v, k) for v in e / n])
+        c = np.where((n == 1) & (c > e), e, c)
+        if _in_band(e, n, c):
+            return c.tolist()
+    return None
+
+
+def _ops(rng, ndim, p1, s, integer):
+    """0-2 transformations: [name, inplace, args...]"""
+    r = rng.uniform()
+    cnt = 0 if r < 0.3 else (1 if r < 0.8 else 2)
+    ops = []
+    for _ in range(cnt):
+        names = ["translate", "scale", "rtranslate", "rscale"] + (["rotate90", "rotate90"] if ndim >= 2 else [])
+        name = names[int(rng.integers(len(names)))]
+        inplace = bool(rng.uniform() < 0.7) or name in ("rtranslate", "rscale")
+        # reference point of scale / rotate90: the default (centre) or an arbitrary point near the region
+        ref = None
+        if rng.uniform() < 0.4:
+            ref = [int(x) for x in rng.integers(-20, 21, size=ndim)] if integer and rng.uniform() < 0.5 else \
+                (np.array(p1, float) + rng.uniform(-1, 2, size=ndim) * s).tolist()
+        if name in ("translate", "rtranslate"):
+            if integer and rng.uniform() < 0.5:
+                v = [int(x) for x in rng.integers(-9, 10, size=ndim)]
+            else:
+                v = (rng.uniform(-2, 2, size=ndim) * s).tolist()
+            ops.append([name, inplace, v])
+        elif name in ("scale", "rscale"):
+            f = float(rng.uniform(0.3, 3)) if rng.uniform() < 0.5 else rng.uniform(0.3, 3, size=ndim).tolist()
+            ops.append([name, inplace, f, ref])
+        else:
+            a1, a2 = (int(x) for x in rng.choice(ndim, size=2, replace=False))
+            ops.append([name, inplace, a1, a2, int(rng.integers(1, 4)), ref])
+    return ops
+
+
+DIMS = {1: ["q"], 2: ["b", "a"], 3: ["z", "x", "y"], 4: ["t", "x", "u", "v"]}
+
+
+def _route_case(rng, family, ndim, nmax):
+    hi = nmax if ndim <= 2 else (6 if ndim == 3 else 4)
+    n = rng.integers(1, hi + 1, size=ndim).tolist()
+    if int(np.prod(n)) == 1:
+        n[int(rng.integers(ndim))] = int(rng.integers(2, hi + 1))
+    styles = ["tuple", "list", "array"] + (["scalar"] if ndim == 1 else [])
+    route = {"by": "n", "args": styles[int(rng.integers(len(styles)))]}
+    integer = family.startswith("int")
+    if integer:
+        p1, p2 = _int_region(rng, ndim, n)
+    elif family in ("cell_digits", "dec_n") or (family == "cell_band" and rng.uniform() < 0.3):
+        p1, p2 = _dec_region(rng, ndim)
+    else:
+        p1, p2 = rand_region(rng, ndim)
+    e = np.abs(np.array(p2, float) - np.array(p1, float))
+    if family in ("cell_exact", "int_cell"):
+        route.update(by="cell", cell=(e / np.array(n)).tolist())
+    elif family in ("cell_band", "int_band", "region_band"):
+        c = _band_cell(rng, e, n)
+        if c is None:
+            return None
+        route.update(by="cell", cell=c)
+    elif family == "cell_digits":
+        c = _digits_cell(e, n, int(rng.integers(4, 9)))
+        if c is None:
+            return None
+        route.update(by="cell", cell=c)
+    if family.startswith("region"):
+        route.update(region=True, dims=DIMS[ndim], tolerance_factor=float(10.0 ** rng.integers(-13, -9)))
+        if rng.uniform() < 0.5:
+            route["bc"] = DIMS[ndim][0]
+    elif rng.uniform() < 0.25:
+        route["bc"] = "xyzw"[int(rng.integers(min(ndim, 3)))] if ndim <= 3 else ""
+    ops = _ops(rng, ndim, p1, float(np.max(e)), integer)
+    if ops:
+        route["ops"] = ops
+    return {"p1": p1, "p2": p2, "n": n, "route": route}
 
 
 def cases(ctx):
@@ -35,40 +178,180 @@ def cases(ctx):
             n = rng.integers(1, hi + 1, size=ndim).tolist()
             yield "lattice", {"p1": p1, "p2": p2, "n": n}
             yield "probe", {"p1": p1, "p2": p2, "n": n, "seed": int(rng.integers(1 << 30))}
-            yield "by_cell", {"p1": p1, "p2": p2, "n": n, "frac": float(rng.uniform(0.05, 0.95)), "axis": int(rng.integers(ndim))}
+            yield "by_cell", {"p1": p1, "p2": p2, "n": n, "frac": float(rng.uniform(0.05, 0.95)), "axis": int(rng.integers(ndim)),
+                              "near": float(10.0 ** rng.uniform(np.log10(0.003), np.log10(0.05))) * (1 if rng.uniform() < 0.5 else -1)}
+    # construction routes x histories: every family in every dimension
+    rreps = 3 if ctx.tier == "quick" else 40
+    for ndim in (1, 2, 3, 4):
+        for family in FAMILIES * rreps:
+            pr = None
+            for _ in range(8):
+                pr = _route_case(rng, family, ndim, nmax)
+                if pr is not None:
+                    break
+            if pr is None:
+                continue
+            yield "lattice", pr
+            yield "probe", dict(pr, seed=int(rng.integers(1 << 30)))
     # fixed corner cases
     yield "lattice", {"p1": [0.0], "p2": [1.0], "n": [1]}
     yield "lattice", {"p1": [-1e-9, 5e-9, 0.0], "p2": [1e-9, -5e-9, 3e-9], "n": [4, 5, 3]}
     yield "probe", {"p1": [0.1, 0.2], "p2": [0.7, 1.1], "n": [6, 9], "seed": 1}
+    # typical user input: a third / a seventh of a round edge length written with four or five digits
+    fixed = [
+        {"p1": [0.0], "p2": [100e-9], "n": [3], "route": {"by": "cell", "cell": [33.33e-9], "args": "scalar"}},
+        {"p1": [0, 0, 0], "p2": [100e-9, 70e-9, 10e-9], "n": [3, 3, 1],
+         "route": {"by": "cell", "cell": [33.333e-9, 23.333e-9, 10e-9], "args": "tuple"}},
+        {"p1": [0.0, 0.0], "p2": [1.0, 0.7], "n": [3, 2],
+         "route": {"by": "cell", "cell": [0.3333, 0.35], "args": "list", "ops": [["translate", True, [0.25, -3.0]]]}},
+        {"p1": [10, -3], "p2": [0, 4], "n": [3, 7],
+         "route": {"by": "cell", "cell": [3.3334, 1.0], "args": "array", "ops": [["rscale", True, 2.0, None], ["rotate90", True, 0, 1, 1, [1, 1]]]}},
+        {"p1": [0, 0, 0], "p2": [20, 10, 5], "n": [7, 3, 5],
+         "route": {"by": "cell", "cell": [2.8571, 3.3333, 1], "args": "tuple", "ops": [["translate", False, [1, 2, 3]]]}},
+    ]
+    for pr in fixed:
+        yield "lattice", pr
+        yield "probe", dict(pr, seed=7)
 
 
-def check(kind, pr, ctx):
-    p1, p2, n = np.array(pr["p1"]), np.array(pr["p2"]), list(pr["n"])
+# ------------------------------------------------------------------------------------------ building a mesh along a route
+def _arg(style, values):
+    values = list(values)
+    if style == "array":
+        return np.array(values)
+    if style == "list":
+        return values
+    if style == "scalar" and len(values) == 1:
+        return values[0]
+    return tuple(values)
+
+
+def build(pr, ctx):
+    """-> (mesh, n_expected) or None when the constructor refused a legitimate request (already reported)."""
+    rt = pr.get("route") or {}
+    p1, p2, n = pr["p1"], pr["p2"], [int(k) for k in pr["n"]]
     ndim = len(n)
+    style = rt.get("args", "tuple")
+    a1, a2 = _arg(style, p1), _arg(style, p2)
+    passed = [a1, a2]
+    kw = {}
+    if rt.get("region"):
+        kw["region"] = df.Region(p1=a1, p2=a2, dims=rt.get("dims"), tolerance_factor=rt.get("tolerance_factor", 1e-12))
+    else:
+        kw.update(p1=a1, p2=a2)
+    if rt.get("by", "n") == "n":
+        kw["n"] = _arg(style, n)
+        passed.append(kw["n"])
+    else:
+        kw["cell"] = _arg(style, [float(c) if not isinstance(c, int) else c for c in rt["cell"]])
+        passed.append(kw["cell"])
+    if rt.get("bc"):
+        kw["bc"] = rt["bc"]
+    r, mesh = raises(ValueError, df.Mesh, **kw)
+    if rt.get("by", "n") == "cell":
+        ctx.require(not r, "C01.cell_request", "cell size inside the acceptance band (or exact) rejected", sig="in-band-cell-rejected",
+                    cell=rt["cell"], error=repr(mesh) if r else None)
+        if r:
+            return None
+        ctx.require(np.array_equal(mesh.n, n), "C01.cell_request", "n is not round(edges/cell)", got=mesh.n, want=n)
+    elif r:
+        raise mesh
+    pmin = np.minimum(np.array(p1), np.array(p2))
+    pmax = np.maximum(np.array(p1), np.array(p2))
+    ctx.require(np.array_equal(mesh.region.pmin, pmin) and np.array_equal(mesh.region.pmax, pmax), "C01.cell_size",
+                "region corners are not min/max of the given corners")
+    if style == "array":
+        # the caller's arrays are his own: scribbling over them must not reach the mesh
+        before = (np.array(mesh.n), np.array(mesh.cell), np.array(mesh.region.pmin), np.array(mesh.region.pmax))
+        for arr in passed:
+            arr *= 3
+            arr += 1
+        after = (mesh.n, mesh.cell, mesh.region.pmin, mesh.region.pmax)
+        ctx.require(all(np.array_equal(x, y) for x, y in zip(before, after)), "C01.history",
+                    "the mesh changes when the arrays passed to its constructor are modified", sig="constructor-argument-aliased")
+    ops = rt.get("ops") or []
+    E_min, E_max, E_n = pmin.astype(float), pmax.astype(float), list(n)
+    mag = np.maximum(np.abs(E_min), np.abs(E_max))          # largest operand seen: the scale of the accumulated rounding
+    for op in ops:
+        name, inplace = op[0], bool(op[1])
+        dims = mesh.region.dims
+        if name in ("translate", "rtranslate"):
+            v = op[2]
+            res = mesh.translate(tuple(v), inplace=inplace) if name == "translate" else (mesh.region.translate(tuple(v), inplace=True), mesh)[1]
+            E_min, E_max = E_min + np.array(v, float), E_max + np.array(v, float)
+            mag = np.maximum(mag, np.abs(np.array(v, float)))
+        elif name in ("scale", "rscale"):
+            f, ref = op[2], (op[3] if len(op) > 3 else None)
+            fa = f if isinstance(f, (int, float)) else tuple(f)
+            kw = {} if ref is None else {"reference_point": tuple(ref)}
+            res = mesh.scale(fa, inplace=inplace, **kw) if name == "scale" else (mesh.region.scale(fa, inplace=True, **kw), mesh)[1]
+            c = (E_min + E_max) / 2 if ref is None else np.array(ref, float)
+            fv = np.array(f, float) * np.ones(ndim)
+            mag = np.maximum(mag, np.maximum(np.abs(c), np.maximum(np.abs(c - E_min), np.abs(E_max - c)) * np.maximum(fv, 1)))
+            E_min, E_max = c - (c - E_min) * fv, c + (E_max - c) * fv
+        elif name == "rotate90":
+            i, j, k = int(op[2]), int(op[3]), int(op[4])
+            ref = op[5] if len(op) > 5 else None
+            kw = {} if ref is None else {"reference_point": tuple(ref)}
+            res = mesh.rotate90(dims[i], dims[j], k=k, inplace=inplace, **kw)
+            c = (E_min + E_max) / 2 if ref is None else np.array(ref, float)
+            mag = np.maximum(mag, np.abs(c))
+            mag[i] = mag[j] = max(mag[i], mag[j], abs(c[i] - E_min[i]), abs(c[i] - E_max[i]), abs(c[j] - E_min[j]), abs(c[j] - E_max[j]))
+            corners = []
+            for q in (E_min, E_max):       # k exact quarter turns of a corner about c in the (i, j) plane: (dx, dy) -> (-dy, dx)
+                q = q.copy()
+                dx, dy = q[i] - c[i], q[j] - c[j]
+                for _ in range(k % 4):
+                    dx, dy = -dy, dx
+                q[i], q[j] = c[i] + dx, c[j] + dy
+                corners.append(q)
+            E_min, E_max = np.minimum(*corners), np.maximum(*corners)
+            if k % 2 == 1:
+                E_n[i], E_n[j] = E_n[j], E_n[i]
+        else:
+            raise ValueError("unknown op %r" % (name,))
+        mag = np.maximum(mag, np.maximum(np.abs(E_min), np.abs(E_max)))
+        if inplace:
+            ctx.require(res is mesh, "C01.history", "in-place %s does not return the mesh itself" % name)
+        mesh = res
+    if ops:
+        ctx.require(np.array_equal(mesh.n, E_n), "C01.history", "n after the transformations", got=mesh.n, want=E_n, ops=ops)
+        ctx.require(ulp_close(mesh.region.pmin, E_min, 64, mag) and ulp_close(mesh.region.pmax, E_max, 64, mag), "C01.history",
+                    "region corners after the transformations", got=[mesh.region.pmin, mesh.region.pmax], want=[E_min, E_max], ops=ops)
+    return mesh, E_n
+
+
+# ------------------------------------------------------------------------------------------ clauses
+def check(kind, pr, ctx):
     if kind == "by_cell":
         return check_by_cell(pr, ctx)
-    mesh = df.Mesh(p1=tuple(p1), p2=tuple(p2), n=tuple(n))
-    pmin, pmax = np.minimum(p1, p2), np.maximum(p1, p2)
+    built = build(pr, ctx)
+    if built is None:
+        return
+    mesh, n = built
+    ndim = len(n)
+    # the lattice the property talks about: the region the mesh is on, divided into n cells per direction
+    pmin, pmax = np.asarray(mesh.region.pmin, float), np.asarray(mesh.region.pmax, float)
     cell = (pmax - pmin) / np.array(n)
     scale = np.maximum(np.abs(pmin), np.abs(pmax))
     if int(np.prod(n)) == 1:
         ctx.trivial()
     if kind == "lattice":
         ctx.require(ulp_close(mesh.cell, cell, 4), "C01.cell_size", "cell != edges/n", got=mesh.cell, want=cell)
-        ctx.require(np.array_equal(mesh.region.pmin, pmin) and np.array_equal(mesh.region.pmax, pmax), "C01.cell_size",
-                    "region corners are not min/max of the given corners")
         ctx.require(len(mesh) == int(np.prod(n)), "C01.len_order", "len(mesh) != prod(n)")
         idxs = list(mesh.indices)
         pts = list(mesh)
         want = [tuple(reversed(t)) for t in itertools.product(*[range(k) for k in reversed(n)])]
         ctx.require(idxs == want, "C01.len_order", "indices not in first-dimension-fastest order")
         ok_c = ok_rt = ok_it = True
+        bad_c = None
         for i, pt in zip(idxs, pts):
             c = mesh.index2point(i)
-            ok_c &= ulp_close(c, pmin + (np.array(i) + 0.5) * cell, 8, scale)
+            if not ulp_close(c, pmin + (np.array(i) + 0.5) * cell, 8, scale):
+                ok_c, bad_c = False, bad_c or (list(i), np.asarray(c).tolist(), (pmin + (np.array(i) + 0.5) * cell).tolist())
             ok_it &= bool(np.array_equal(np.asarray(c), np.asarray(pt)))
             ok_rt &= mesh.point2index(c) == tuple(i)
-        ctx.require(ok_c, "C01.centre", "index2point differs from pmin+(i+1/2)*cell")
+        ctx.require(ok_c, "C01.centre", "index2point differs from pmin+(i+1/2)*cell", index_got_want=bad_c)
         ctx.require(ok_it and len(pts) == len(idxs), "C01.len_order", "iteration over the mesh does not yield index2point(indices[k])")
         ctx.require(ok_rt, "C01.roundtrip", "point2index(index2point(i)) != i")
         for j, d in enumerate(mesh.region.dims):
@@ -88,43 +371,107 @@ def check(kind, pr, ctx):
         one[-1] = n[-1]
         bad_hi &= raises(IndexError, mesh.index2point, tuple(one))[0]
         ctx.require(bad_hi, "C01.reject_outside", "out-of-range index accepted")
+        check_tiling(mesh, n, pmin, pmax, scale, ctx)
     elif kind == "probe":
         rng = np.random.default_rng(pr["seed"])
         tol = np.min(pmax - pmin) * mesh.region.tolerance_factor + mesh.region.tolerance_factor * scale
-        okc = okf = okr = True
-        detail = None
-        for _ in range(40):
-            # random interior points
-            p = pmin + rng.uniform(0, 1, ndim) * (pmax - pmin)
+        slack = 4 * np.spacing(scale) + tol
+        own_cell = np.asarray(mesh.cell, float)
+        okc = okf = okr = okown = oknear = True
+        detail = near_detail = own_detail = None
+
+        def own_box_contains(p, k):
+            # the cell as the mesh itself describes it: centre index2point(k), size mesh.cell
+            c = np.asarray(mesh.index2point(tuple(int(x) for x in k)), float)
+            return bool(np.all(p >= c - own_cell / 2 - 2 * slack) and np.all(p <= c + own_cell / 2 + 2 * slack))
+
+        probes = [pmin + rng.uniform(0, 1, ndim) * (pmax - pmin) for _ in range(40)]
+        probes += [np.array(mesh.region.pmin, float), np.array(mesh.region.pmax, float)]
+        for p in probes:
+            # random interior points and the two corners
             k = np.array(mesh.point2index(p))
             inr = np.all((k >= 0) & (k < n))
             lo, hi = pmin + k * cell, pmin + (k + 1) * cell
-            if not (inr and np.all(p >= lo - 4 * np.spacing(scale) - tol) and np.all(p <= hi + 4 * np.spacing(scale) + tol)):
+            if not (inr and np.all(p >= lo - slack) and np.all(p <= hi + slack)):
                 okc = False
                 detail = (p.tolist(), k.tolist())
+            elif not own_box_contains(p, k):
+                okown = False
+                own_detail = (p.tolist(), k.tolist())
+        kmin, kmax = mesh.point2index(np.array(mesh.region.pmin)), mesh.point2index(np.array(mesh.region.pmax))
+        ctx.require(kmin == tuple([0] * ndim) and kmax == tuple(k - 1 for k in n), "C01.face_lower_inclusive",
+                    "pmin / pmax do not map to the first / last cell", got=[kmin, kmax])
         # faces: vertex j of axis a -> cell j (lower face inclusive), the neighbouring cell is accepted only when the vertex lies within rounding (8 ulp of the coordinate scale) of the face
         for a in range(ndim):
-            verts = np.asarray(getattr(mesh.vertices, mesh.region.dims[a]))
+            verts = pmin[a] + np.arange(n[a] + 1) * cell[a]      # oracle faces
+            verts[-1] = pmax[a]
             for j, v in enumerate(verts):
-                p = mesh.region.center.copy()
+                p = np.array(mesh.region.center, float)
                 p[a] = v
                 k = mesh.point2index(p)[a]
                 want = min(j, n[a] - 1)
                 if k != want:
                     # rounding: accept the neighbour only if the computed quotient is within 2 ulp of the integer j
-                    qv = (v - pmin[a]) / mesh.cell[a]
+                    qv = (v - pmin[a]) / cell[a]
                     if not (abs(qv - j) <= 8 * np.spacing(scale[a]) / cell[a] + 8 * np.spacing(max(j, 1.0)) and abs(k - want) == 1):
                         okf = False
                         detail = (a, j, k)
+                # strictly inside a cell, close to its face: no tolerance and no rounding can move the point to the neighbour
+                for eps in (1e-9, 1e-6, 1e-3):
+                    d = eps * cell[a]
+                    if d <= 4 * tol[a] + 64 * np.spacing(scale[a]):
+                        continue
+                    for sgn, wantk in ((1, j), (-1, j - 1)):
+                        if not 0 <= wantk < n[a]:
+                            continue
+                        p[a] = v + sgn * d
+                        k = mesh.point2index(p)
+                        if k[a] != wantk:
+                            oknear = False
+                            near_detail = (a, j, sgn * eps, k[a], wantk)
+                        elif not own_box_contains(p, k):
+                            okown = False
+                            own_detail = (p.tolist(), list(k))
         # outside by more than the tolerance
         for a in range(ndim):
             for side in (-1, 1):
-                p = mesh.region.center.copy()
+                p = np.array(mesh.region.center, float)
                 p[a] = (pmin[a] - 1e-3 * (pmax[a] - pmin[a]) - 10 * tol[a]) if side < 0 else (pmax[a] + 1e-3 * (pmax[a] - pmin[a]) + 10 * tol[a])
                 okr &= raises(ValueError, mesh.point2index, p)[0]
         ctx.require(okc, "C01.containing_cell", "point maps to a cell that does not contain it", detail=detail)
+        ctx.require(oknear, "C01.containing_cell", "point strictly inside a cell (eps*cell from its face) maps to the neighbouring cell",
+                    sig=kind + ":near-face", axis_vertex_eps_got_want=near_detail)
+        ctx.require(okown, "C01.containing_cell", "the cell as described by index2point(k) +- mesh.cell/2 does not contain the point mapped to k",
+                    sig=kind + ":own-cell", point_index=own_detail)
         ctx.require(okf, "C01.face_lower_inclusive", "vertex coordinate not mapped to the cell above it", detail=detail)
         ctx.require(okr, "C01.reject_outside", "point outside the region accepted")
+
+
+def check_tiling(mesh, n, pmin, pmax, scale, ctx):
+    """consistency of the mesh's OWN observers: together they must tile the region exactly once"""
+    ndim = len(n)
+    own = np.asarray(mesh.cell, float)
+    ctx.require(ulp_close(own * np.array(n), pmax - pmin, 4), "C01.tiling", "n*cell != edges", got=own * np.array(n), want=pmax - pmin)
+    first = np.asarray(mesh.index2point(tuple([0] * ndim)), float)
+    last = np.asarray(mesh.index2point(tuple(k - 1 for k in n)), float)
+    ctx.require(ulp_close(first - own / 2, pmin, 8, scale), "C01.tiling", "lower face of the first cell is not pmin", got=first - own / 2, want=pmin)
+    ctx.require(ulp_close(last + own / 2, pmax, 8, scale), "C01.tiling", "upper face of the last cell is not pmax", got=last + own / 2, want=pmax)
+    for j, d in enumerate(mesh.region.dims):
+        line = []
+        for k in range(n[j]):
+            i = [0] * ndim
+            i[j] = k
+            line.append(float(mesh.index2point(tuple(i))[j]))
+        line = np.array(line)
+        cj, vj = np.asarray(getattr(mesh.cells, d), float), np.asarray(getattr(mesh.vertices, d), float)
+        ok = len(cj) == n[j] and len(vj) == n[j] + 1
+        ok = ok and ulp_close(np.diff(line), own[j], 16, scale[j])                     # neighbours are one cell apart
+        ok = ok and ulp_close(cj, line, 8, scale[j])                                   # per-axis centres == index2point
+        ok = ok and ulp_close((vj[:-1] + vj[1:]) / 2, line, 8, scale[j])               # vertex midpoints == centres
+        ok = ok and ulp_close(np.diff(vj), own[j], 16, scale[j])                       # vertices are one cell apart
+        ok = ok and ulp_close(vj[0], pmin[j], 2, scale[j]) and ulp_close(vj[-1], pmax[j], 2, scale[j])
+        ctx.require(ok, "C01.tiling", "index2point / cells / vertices / cell disagree along an axis", axis=j,
+                    index2point=line, cells=cj, vertices=vj, cell=own[j])
 
 
 def check_by_cell(pr, ctx):
@@ -144,3 +491,11 @@ def check_by_cell(pr, ctx):
     big[a] = (pmax[a] - pmin[a]) * 1.5
     r3, _ = raises(ValueError, df.Mesh, p1=tuple(p1), p2=tuple(p2), cell=tuple(big))
     ctx.require(r3, "C01.cell_request", "cell larger than the region accepted")
+    near = pr.get("near")
+    if near:
+        # n cells leave over (near > 0) or overshoot by (near < 0) |near| * smallest cell: 3 .. 50 times the acceptance band
+        nb = cell.copy()
+        nb[a] = (pmax[a] - pmin[a] - near * np.min(cell)) / n[a]
+        r4, _ = raises(ValueError, df.Mesh, p1=tuple(p1), p2=tuple(p2), cell=tuple(nb))
+        ctx.require(r4, "C01.cell_request", "cell size whose multiple misses the edge by %.4f of the smallest cell accepted" % near,
+                    sig="by_cell:near-band")
